@@ -210,6 +210,27 @@ var held struct {
 	vec interface{}
 }
 
+// emptyURL returns one of the spellings of a URL that renders as "": the zero value, or one that only has
+// fields String() ignores when everything else is empty. All of them are "empty" in Cloudevents.tla.
+func emptyURL(rng *rand.Rand) *url.URL {
+	for {
+		var u *url.URL
+		switch rng.Intn(5) {
+		case 0, 1:
+			u = &url.URL{}
+		case 2:
+			u = &url.URL{RawPath: "a%2Fb"}
+		case 3:
+			u = &url.URL{RawFragment: "s%2F1"}
+		default:
+			u = &url.URL{OmitHost: true}
+		}
+		if u.String() == "" {
+			return u
+		}
+	}
+}
+
 func runVec(rep *Report, v *Vec, rng *rand.Rand, fresh map[string]bool) {
 	rep.Runs++
 	ff := &cloudevents.FormatterFilter{}
@@ -217,13 +238,13 @@ func runVec(rep *Report, v *Vec, rng *rand.Rand, fresh map[string]bool) {
 	case "set":
 		ff.Source, _ = url.Parse(fmt.Sprintf("https://example.com/src/%d", rng.Intn(1000)))
 	case "empty":
-		ff.Source = &url.URL{}
+		ff.Source = emptyURL(rng)
 	}
 	switch v.V.Schema {
 	case "set":
 		ff.Schema, _ = url.Parse(fmt.Sprintf("https://example.com/schema/%d.json", rng.Intn(1000)))
 	case "empty":
-		ff.Schema = &url.URL{}
+		ff.Schema = emptyURL(rng)
 	}
 	switch v.V.Format {
 	case "json":
